@@ -344,7 +344,7 @@ def rule_predicates(fx, rep):
                 if isinstance(ret, tuple) and ret and ret[0] == 'diverges':
                     ok = False
                     break
-                lits = tt.path_literals(pth2)
+                lits = tt.path_literals_add(pth2)
                 if [l for l in lits if l[0] != kzP]:
                     ok = False
                     break
